@@ -242,7 +242,10 @@ Section MoveCtor.
       (forall b, match get_bind w b, get_bind w' b with
                  | Some x, Some x' => b_evp x' = b_evp x /\ abs_tree (b_root x') = option_map (aren (rn src dst)) (abs_tree (b_root x))
                  | None, None => True
-                 | _, _ => False end).
+                 | _, _ => False end) /\
+      (* the three public signals - with every observer and every reader subscribed to them - now belong to the destination *)
+      (pr_about dn = pr_about s0 /\ pr_changed dn = pr_changed s0 /\ pr_destroyed dn = pr_destroyed s0 /\
+       pr_about sn = None /\ pr_changed sn = None /\ pr_destroyed sn = None).
   Proof.
     intros Hinv Hna HNE H. cbn [step1] in H.
     destruct (lookup (w_props w) src) as [s0|] eqn:Hs; [|discriminate H].
@@ -303,7 +306,7 @@ Section MoveCtor.
     assert (Sw : forall t pos ser s1, slot_at w' t pos ser s1 <-> slot_at w t pos ser s1).
     { intros t pos ser s1. unfold slot_at. change (tview w' t) with (tview wc t). rewrite Tw. tauto. }
     exists s0, dn, sn. split; [reflexivity|]. split; [reflexivity|]. split; [exact Hne|]. split; [reflexivity|]. split; [reflexivity|]. split; [reflexivity|]. split; [reflexivity|].
-    split; [exact PW|]. split; [exact Sw|exact HB].
+    split; [exact PW|]. split; [exact Sw|]. split; [exact HB|]. repeat split.
   Qed.
 
   (* the abstract half, for any operation that leaves the world in this shape: dst now has the value and updater src had, src is
@@ -391,7 +394,7 @@ Section MoveCtor.
   Proof.
     intros (Hinv & Hna & Hsi) (s & HRel & HInv) HNE H.
     pose proof (movector_pinv fn rtl fuel w src dst w' None Hinv HNE H I) as Hinv'.
-    destruct (movector_shape fuel w src dst w' Hinv Hna HNE H) as (s0 & dn & sn & Hs & Hd & Hne & Vd & Ud & Vs & Us & PW & Sw & HB).
+    destruct (movector_shape fuel w src dst w' Hinv Hna HNE H) as (s0 & dn & sn & Hs & Hd & Hne & Vd & Ud & Vs & Us & PW & Sw & HB & _).
     apply (coh_renamed w w' s src dst s0 dn sn); auto.
     - intros b lf Hl Ht. apply (pi_leafx _ _ _ _ _ _ _ Hinv _ _ _ Hl Ht). unfold pview. rewrite Hd. reflexivity.
     - intros t pos ser s1 Hsl. apply Sw. exact Hsl.
